@@ -74,6 +74,10 @@ TUpdate ==
     \* (an update that opens the history carries `tdig`: the state restricted to the attributes of the twin)
     /\ C("same-state-as-run-without-extra-queries",
           HasTwin => T.twin[step].dig = (IF "tdig" \in DOMAIN Ev THEN Ev.tdig ELSE Ev.dig))
+    \* (subjects whose decisions do not depend on the chunking: T.single holds the decisions of the same stream
+    \*  processed one instance at a time - <<>> when not recorded)
+    /\ C("same-decisions-as-one-instance-at-a-time",
+          T.single = <<>> \/ \A k \in 1..Ev.len : InSeq(k, Ev.q) = (T.single[n + k] = 1))
     /\ C("no-overspend-at-every-prefix",
           \A k \in 1..Ev.len : BoundOK(granted + CountUpTo(Ev.q, k), n + k))
     /\ dig' = Ev.dig /\ step' = step + 1
